@@ -1,16 +1,365 @@
+(* C17 proofs, part 1: the lexical specification (no reference to the model).
+   split/join bijection, process, canonical form, idempotence, trailing slash. *)
 From FoxBase Require Import Bytes.
-From FoxC17 Require Import Spec Model.
+From FoxC17 Require Import Spec.
 Open Scope char_scope.
 
-Lemma join_rooted els : els <> [] -> exists t, join els = "/" :: t.
-Proof. destruct els as [|e r]; [congruence|]. intros _. simpl. eauto. Qed.
+(* ---------- elements without '/' ---------- *)
+
+
+Lemma join_cons e t : join (e :: t) = "/" :: e ++ join t.
+Proof. reflexivity. Qed.
+
+Lemma join_app a b : join (a ++ b) = join a ++ join b.
+Proof. unfold join. apply flat_map_app. Qed.
+
+Lemma split_nonempty s cur : split_slash s cur <> [].
+Proof.
+  revert cur; induction s as [|c s IH]; intros cur; simpl; [congruence|].
+  destruct (Ascii.eqb c "/"); [congruence|apply IH].
+Qed.
+
+Lemma split_app_ns e s cur : noslash e -> split_slash (e ++ s) cur = split_slash s (rev e ++ cur).
+Proof.
+  revert cur; induction e as [|a e IH]; intros cur Hn; [reflexivity|].
+  inversion Hn as [|? ? Ha He]; subst. unfold ns in Ha. simpl. rewrite Ha.
+  rewrite IH by assumption. rewrite <- app_assoc. reflexivity.
+Qed.
+
+Lemma split_ns_end e : noslash e -> split_slash e [] = [e].
+Proof.
+  intros Hn. rewrite <- (app_nil_r e) at 1. rewrite split_app_ns by assumption.
+  simpl. rewrite app_nil_r, rev_involutive. reflexivity.
+Qed.
+
+Lemma split_ns_slash e t : noslash e -> split_slash (e ++ "/" :: t) [] = e :: split_slash t [].
+Proof.
+  intros Hn. rewrite split_app_ns by assumption. simpl.
+  rewrite app_nil_r, rev_involutive. reflexivity.
+Qed.
+
+(* split is inverse to "first element ++ join of the others" *)
+Lemma split_join t : forall e0 cur, noslash e0 -> Forall noslash t ->
+  split_slash (e0 ++ join t) cur = (rev cur ++ e0) :: t.
+Proof.
+  induction t as [|e1 t IH]; intros e0 cur H0 Ht.
+  - simpl. rewrite split_app_ns by assumption. simpl.
+    rewrite rev_app_distr, rev_involutive. reflexivity.
+  - inversion Ht as [|? ? H1 Ht']; subst. rewrite join_cons.
+    rewrite split_app_ns by assumption. simpl.
+    rewrite rev_app_distr, rev_involutive.
+    rewrite (IH e1 [] H1 Ht'). reflexivity.
+Qed.
+
+Lemma join_split s : forall cur,
+  hd [] (split_slash s cur) ++ join (tl (split_slash s cur)) = rev cur ++ s.
+Proof.
+  induction s as [|c s IH]; intros cur; simpl.
+  - reflexivity.
+  - destruct (Ascii.eqb_spec c "/") as [->|Hc].
+    + simpl. specialize (IH []). simpl in IH.
+      destruct (split_slash s []) as [|h t] eqn:E; [exfalso; exact (split_nonempty _ _ E)|].
+      simpl in *. rewrite IH. reflexivity.
+    + rewrite IH. simpl. rewrite <- app_assoc. reflexivity.
+Qed.
+
+Lemma split_noslash s : forall cur, noslash cur -> Forall noslash (split_slash s cur).
+Proof.
+  induction s as [|c s IH]; intros cur Hc; simpl.
+  - constructor; [|constructor]. apply Forall_rev. exact Hc.
+  - destruct (Ascii.eqb c "/") eqn:E.
+    + constructor; [apply Forall_rev; exact Hc|]. apply IH. constructor.
+    + apply IH. constructor; assumption.
+Qed.
+
+Lemma last_cons_ne {A} (x : A) l d : l <> [] -> last (x :: l) d = last l d.
+Proof. destruct l; [congruence|reflexivity]. Qed.
+
+Lemma ascii_dot_match a : match a with "." => true | _ => false end = Ascii.eqb a ".".
+Proof. destruct a as [[] [] [] [] [] [] [] []]; reflexivity. Qed.
+
+Lemma is_dot_iff e : is_dot e = true <-> e = ["."].
+Proof.
+  destruct e as [|a [|b e]]; cbn [is_dot]; try (split; congruence).
+  - rewrite ascii_dot_match, Ascii.eqb_eq. split; congruence.
+  - split; [|congruence]. destruct a as [[] [] [] [] [] [] [] []]; discriminate.
+Qed.
+
+Lemma is_dotdot_iff e : is_dotdot e = true <-> e = ["."; "."].
+Proof.
+  destruct e as [|a [|b [|c e]]]; cbn [is_dotdot]; try (split; congruence).
+  - split; [|congruence]. destruct a as [[] [] [] [] [] [] [] []]; discriminate.
+  - split.
+    + destruct a as [[] [] [] [] [] [] [] []]; try discriminate.
+      destruct b as [[] [] [] [] [] [] [] []]; try discriminate. reflexivity.
+    + intros H; inversion H; reflexivity.
+  - split; [|congruence]. destruct a as [[] [] [] [] [] [] [] []]; try discriminate.
+    destruct b as [[] [] [] [] [] [] [] []]; discriminate.
+Qed.
+
+(* ---------- process ---------- *)
+
+Lemma process_step e r stack :
+  process (e :: r) stack =
+    if is_empty e || is_dot e then process r stack
+    else if is_dotdot e then process r (tl stack)
+    else process r (e :: stack).
+Proof.
+  destruct e as [|a e]; [reflexivity|].
+  cbn [process is_empty orb]. reflexivity.
+Qed.
+
+Lemma real_elem_inv e : real_elem e = true ->
+  is_empty e = false /\ is_dot e = false /\ is_dotdot e = false.
+Proof.
+  unfold real_elem. intros H.
+  apply andb_prop in H; destruct H as [H H3]. apply andb_prop in H; destruct H as [H1 H2].
+  apply negb_true_iff in H1, H2, H3. auto.
+Qed.
+
+Lemma process_real e r stack : real_elem e = true -> process (e :: r) stack = process r (e :: stack).
+Proof.
+  intros H. destruct (real_elem_inv _ H) as (H1 & H2 & H3).
+  rewrite process_step, H1, H2, H3. reflexivity.
+Qed.
+
+Lemma process_real_app body : forall r stack, Forall (fun e => real_elem e = true) body ->
+  process (body ++ r) stack = process r (rev body ++ stack).
+Proof.
+  induction body as [|e body IH]; intros r stack Hb; [reflexivity|].
+  inversion Hb; subst. simpl app. rewrite process_real by assumption.
+  rewrite IH by assumption. simpl. rewrite <- app_assoc. reflexivity.
+Qed.
+
+Lemma Forall_tl {A} (P : A -> Prop) l : Forall P l -> Forall P (tl l).
+Proof. destruct l; [auto|]. intros H; inversion H; assumption. Qed.
+
+Lemma process_realp els : forall stack, Forall noslash els -> Forall realp stack ->
+  Forall realp (process els stack).
+Proof.
+  induction els as [|e els IH]; intros stack He Hs.
+  - simpl. apply Forall_rev. exact Hs.
+  - inversion He as [|? ? He1 He2]; subst. rewrite process_step.
+    destruct (is_empty e || is_dot e) eqn:E1; [apply IH; assumption|].
+    destruct (is_dotdot e) eqn:E2; [apply IH; [assumption|apply Forall_tl; assumption]|].
+    apply IH; [assumption|]. constructor; [|assumption]. split; [|assumption].
+    apply orb_false_iff in E1. destruct E1 as [E0 E1].
+    unfold real_elem. rewrite E0, E1, E2. reflexivity.
+Qed.
+
+(* ---------- rendering ---------- *)
+
+
+Lemma render_ne els ts : els <> [] -> render els ts = join els ++ (if ts then ["/"] else []).
+Proof. destruct els; [congruence|reflexivity]. Qed.
+
+Definition tsflag (p : bytes) : bool := is_empty (last_elem p) || is_dot (last_elem p).
+
+Lemma clean_spec_render p : clean_spec p = render (process (split_slash p []) []) (tsflag p).
+Proof.
+  unfold clean_spec, render, tsflag, last_elem.
+  destruct (process (split_slash p []) []); reflexivity.
+Qed.
+
+Lemma clean_spec_elems p : Forall realp (process (split_slash p []) []).
+Proof. apply process_realp; [apply split_noslash; constructor|constructor]. Qed.
+
+Lemma realp_ne e : realp e -> e <> [].
+Proof. intros [H _] ->. discriminate. Qed.
+
+Lemma Forall_removelast {A} (P : A -> Prop) l : Forall P l -> Forall P (removelast l).
+Proof.
+  induction l as [|a l IH]; intros H; [constructor|]. inversion H; subst.
+  destruct l as [|b l]; [constructor|]. cbn [removelast]. constructor; auto.
+Qed.
+
+Lemma Forall_last {A} (P : A -> Prop) l d : Forall P l -> l <> [] -> P (last l d).
+Proof.
+  induction l as [|a l IH]; intros H Hn; [congruence|]. inversion H; subst.
+  destruct l as [|b l]; [assumption|]. rewrite last_cons_ne by congruence. apply IH; [assumption|congruence].
+Qed.
+
+Lemma forallb_Forall_real l : Forall realp l -> forallb real_elem l = true.
+Proof.
+  intros H. apply forallb_forall. intros x Hx.
+  rewrite Forall_forall in H. exact (proj1 (H x Hx)).
+Qed.
+
+Lemma canonical_render els ts : Forall realp els -> canonical (render els ts) = true.
+Proof.
+  intros Hf. destruct els as [|e t]; [reflexivity|].
+  unfold render.
+  assert (Hns : Forall noslash (e :: t)).
+  { eapply Forall_impl; [|exact Hf]. intros a [_ Ha]; exact Ha. }
+  inversion Hns as [|? ? Hne Hnt]; subst.
+  destruct ts.
+  - replace (join (e :: t) ++ ["/"]) with ("/" :: e ++ join (t ++ [[]])).
+    2:{ rewrite join_app, join_cons. simpl. rewrite <- app_assoc. reflexivity. }
+    cbn [canonical]. rewrite Ascii.eqb_refl. cbn [andb].
+    destruct (e ++ join (t ++ [[]])) as [|c0 rest0] eqn:Er; [reflexivity|]. rewrite <- Er.
+    rewrite (split_join (t ++ [[]]) e []); [|assumption|].
+    2:{ apply Forall_app; split; [assumption|]. constructor; [constructor|constructor]. }
+    cbn [rev app].
+    change (e :: t ++ [[]]) with ((e :: t) ++ [[]]).
+    rewrite removelast_last, last_last.
+    rewrite forallb_Forall_real by assumption.
+    cbn [real_elem is_empty negb andb orb].
+    inversion Hf as [|? ? He _]; subst. apply realp_ne in He.
+    destruct e; [congruence|reflexivity].
+  - rewrite app_nil_r, join_cons.
+    cbn [canonical]. rewrite Ascii.eqb_refl. cbn [andb].
+    destruct (e ++ join t) as [|c0 rest0] eqn:Er; [reflexivity|]. rewrite <- Er.
+    rewrite (split_join t e []) by assumption. cbn [rev app].
+    rewrite forallb_Forall_real by (apply Forall_removelast; assumption).
+    assert (Hl : realp (last (e :: t) [])) by (apply Forall_last; [assumption|congruence]).
+    destruct Hl as [Hl _]. unfold bytes in *. rewrite Hl. reflexivity.
+Qed.
+
+Lemma clean_spec_canonical p : canonical (clean_spec p) = true.
+Proof. rewrite clean_spec_render. apply canonical_render, clean_spec_elems. Qed.
+
+Lemma forallb_real_Forall l : forallb real_elem l = true -> Forall (fun e => real_elem e = true) l.
+Proof. intros H. apply Forall_forall. intros x Hx. rewrite forallb_forall in H. auto. Qed.
+
+Lemma canonical_fixed p : canonical p = true -> clean_spec p = p.
+Proof.
+  destruct p as [|c rest]; [discriminate|]. cbn [canonical]. intros H.
+  apply andb_prop in H. destruct H as [Hc H]. apply Ascii.eqb_eq in Hc. subst c.
+  destruct rest as [|c1 rest']; [reflexivity|].
+  remember (c1 :: rest') as rest eqn:Hrest.
+  rename H into Hmatch.
+  set (L := split_slash rest []) in *.
+  assert (HL : L <> []) by apply split_nonempty.
+  assert (Hp : "/" :: rest = join L).
+  { pose proof (join_split rest []) as J. fold L in J. simpl in J.
+    destruct L as [|h t]; [congruence|]. simpl in J. rewrite join_cons, J. reflexivity. }
+  rewrite clean_spec_render. unfold tsflag, last_elem.
+  assert (Hs : split_slash ("/" :: rest) [] = [] :: L) by reflexivity.
+  rewrite Hs. rewrite last_cons_ne by assumption.
+  rewrite process_step. cbn [is_empty orb].
+  apply andb_prop in Hmatch. destruct Hmatch as [Hb Hl].
+  apply forallb_real_Forall in Hb.
+  rewrite (app_removelast_last [] HL) in Hp |- * at 1.
+  rewrite process_real_app by assumption. rewrite app_nil_r.
+  unfold bytes in *.
+  set (body := removelast L) in *. set (l := last L []) in *.
+  destruct (real_elem l) eqn:Hrl.
+  - rewrite process_real by assumption. cbn [process].
+    destruct (real_elem_inv _ Hrl) as (H1 & H2 & _). rewrite H1, H2. cbn [orb].
+    cbn [rev]. rewrite rev_involutive.
+    rewrite render_ne by (intros E; apply app_eq_nil in E; destruct E; discriminate).
+    rewrite app_nil_r. symmetry. exact Hp.
+  - cbn [orb] in Hl. apply andb_prop in Hl. destruct Hl as [Hle Hbn].
+    destruct l as [|? ?]; [|discriminate].
+    rewrite process_step. cbn [is_empty orb process]. rewrite rev_involutive.
+    rewrite render_ne by (intros E; rewrite E in Hbn; discriminate).
+    rewrite Hp, join_app. reflexivity.
+Qed.
+
+Lemma clean_spec_idempotent p : clean_spec (clean_spec p) = clean_spec p.
+Proof. apply canonical_fixed, clean_spec_canonical. Qed.
+
+Lemma clean_iff_fixed p : clean_spec p = p <-> canonical p = true.
+Proof.
+  split; [|apply canonical_fixed].
+  intros H. rewrite <- H. apply clean_spec_canonical.
+Qed.
+
+Lemma canonical_unique a b :
+  canonical a = true -> canonical b = true -> clean_spec a = clean_spec b -> a = b.
+Proof.
+  intros Ha Hb H. rewrite (canonical_fixed a Ha), (canonical_fixed b Hb) in H. exact H.
+Qed.
+
+(* the canonical paths are exactly the renderings of lists of real elements *)
+Lemma canonical_iff_render p :
+  canonical p = true <-> exists els ts, Forall realp els /\ p = render els ts.
+Proof.
+  split.
+  - intros H. exists (process (split_slash p []) []), (tsflag p). split; [apply clean_spec_elems|].
+    rewrite <- clean_spec_render. symmetry. apply canonical_fixed, H.
+  - intros (els & ts & Hf & ->). apply canonical_render, Hf.
+Qed.
 
 Lemma clean_spec_rooted p : exists t, clean_spec p = "/" :: t.
 Proof.
-  unfold clean_spec. destruct p as [|c p']; [eauto|].
-  set (els := split_slash (c :: p') []).
-  destruct (join (process els [])) as [|x t] eqn:E; [eauto|].
-  assert (Hx : x = "/").
-  { destruct (process els []) as [|e r]; simpl in E; [discriminate|]. congruence. }
-  subst x. destruct (_ || _); simpl; eauto.
+  rewrite clean_spec_render. unfold render.
+  destruct (process (split_slash p []) []) as [|e t]; [eauto|].
+  rewrite join_cons. simpl. eauto.
+Qed.
+
+(* ---------- trailing slash ---------- *)
+
+Lemma ends_cons c s : ends_with_slash (c :: s) <-> (s = [] /\ c = "/") \/ ends_with_slash s.
+Proof.
+  unfold ends_with_slash. split.
+  - intros [q Hq]. destruct q as [|a q]; simpl in Hq.
+    + inversion Hq; subst. left; auto.
+    + inversion Hq; subst. right. eauto.
+  - intros [[-> ->]|[q ->]]; [exists []; reflexivity|exists (c :: q); reflexivity].
+Qed.
+
+Lemma ends_nil : ~ ends_with_slash [].
+Proof. intros [q Hq]. destruct q; discriminate. Qed.
+
+Lemma is_empty_true e : is_empty e = true <-> e = [].
+Proof. destruct e; simpl; split; congruence. Qed.
+
+Lemma last_split_empty s : forall cur,
+  is_empty (last (split_slash s cur) []) = true <-> (s = [] /\ cur = []) \/ ends_with_slash s.
+Proof.
+  induction s as [|c s IH]; intros cur.
+  - simpl. rewrite is_empty_true. split.
+    + intros H. left. split; [reflexivity|]. apply (f_equal (@rev ascii)) in H.
+      rewrite rev_involutive in H. exact H.
+    + intros [[_ ->]|H]; [reflexivity|]. exfalso; exact (ends_nil H).
+  - simpl. destruct (Ascii.eqb_spec c "/") as [->|Hc].
+    + rewrite last_cons_ne by apply split_nonempty. rewrite IH, ends_cons.
+      split.
+      * intros [[-> _]|H]; right; [left; auto|right; exact H].
+      * intros [[? _]|[[-> _]|H]]; [discriminate|left; auto|right; exact H].
+    + rewrite IH, ends_cons. split.
+      * intros [[_ ?]|H]; [discriminate|]. right; right; exact H.
+      * intros [[? _]|[[_ ?]|H]]; [discriminate|congruence|right; exact H].
+Qed.
+
+Lemma join_last_ns els : Forall realp els -> els <> [] -> ~ ends_with_slash (join els).
+Proof.
+  intros Hf Hn He.
+  rewrite (app_removelast_last [] Hn) in He. rewrite join_app in He.
+  assert (Hl : realp (last els [])) by (apply Forall_last; assumption).
+  unfold bytes in *. remember (last els []) as l eqn:El. cbn [join flat_map] in He. rewrite app_nil_r in He.
+  destruct Hl as [Hr Hns].
+  assert (Hne : l <> []) by (intros ->; discriminate).
+  rewrite (app_removelast_last "a" Hne) in He.
+  destruct He as [q Hq].
+  change ("/" :: removelast l ++ [last l "a"]) with (("/" :: removelast l) ++ [last l "a"]) in Hq.
+  rewrite app_assoc in Hq. apply app_inj_tail in Hq. destruct Hq as [_ Hq].
+  assert (Hin : ns (last l "a")) by (apply Forall_last; assumption).
+  unfold ns in Hin. rewrite Hq in Hin. discriminate.
+Qed.
+
+(* a trailing slash is kept exactly when the input ended with a slash or a "."
+   element, and the result is not the root *)
+Lemma clean_spec_trailing p :
+  (ends_with_slash (clean_spec p) /\ clean_spec p <> root) <->
+  ((ends_with_slash p \/ last_elem p = ["."]) /\ clean_spec p <> root).
+Proof.
+  pose proof is_dot_iff as Hdot.
+  split; intros [H Hroot]; (split; [|exact Hroot]); unfold root in *;
+    rewrite clean_spec_render in *; pose proof (clean_spec_elems p) as Hf;
+    destruct (process (split_slash p []) []) as [|e t] eqn:Eo; try (exfalso; apply Hroot; reflexivity);
+    unfold render in *; unfold tsflag in *.
+  - destruct (is_empty (last_elem p)) eqn:E1.
+    + unfold last_elem in E1. apply last_split_empty in E1. destruct E1 as [[-> _]|E1]; [discriminate|].
+      left; exact E1.
+    + destruct (is_dot (last_elem p)) eqn:E2; [right; apply Hdot; exact E2|].
+      cbn [orb] in H. rewrite app_nil_r in H. exfalso.
+      eapply join_last_ns; [exact Hf|congruence|exact H].
+  - assert (Ht : is_empty (last_elem p) || is_dot (last_elem p) = true).
+    { destruct H as [H|H].
+      - unfold last_elem. replace (is_empty _) with true; [reflexivity|].
+        symmetry. apply last_split_empty. right; exact H.
+      - rewrite H. reflexivity. }
+    rewrite Ht. eexists; reflexivity.
 Qed.
